@@ -46,7 +46,7 @@ def absent_lrus(ctx, k=8):
     while base and len(out) < k and tries < k * 5:
         tries += 1
         x = lrugen.mutate(ctx.obs_rng, ctx.obs_rng.choice(base))
-        if x not in m.nodes and x.endswith(b"|") and b"||" not in x:
+        if x not in m.nodes and x.endswith(b"|"):
             out.append(x)
     return out
 
@@ -120,6 +120,15 @@ def sweep_C02(ctx):
         ctx.check("C02.insert_agrees", a[0].block == blk, lambda: "insert path finds %s at another block" % short(p))
         if ctx.disk is not None:
             ctx.check("C02.insert_agrees", len(ctx.disk.log) == mark, lambda: "insert path wrote while re-finding %s" % short(p))
+    # full traversal started from a located entry (not from the root) must yield exactly the
+    # stored LRUs that extend it, byte for byte
+    for p in sample(ctx, m.nodes, 4):
+        start = guarded(ctx, "C02.subtree_traversal", trie.lru_node, p)[1]
+        if start is None:
+            continue
+        sub = guarded(ctx, "C02.subtree_traversal", lambda: [lru for node, lru in trie.dfs_iter(start, p)])[1]
+        exp = sorted(q for q in m.nodes if q.startswith(p))
+        ctx.check("C02.subtree_traversal", sorted(sub) == exp, lambda: "traversal started at %s yields %s, stored below it: %s" % (short(p), short(sorted(sub)), short(exp)))
     for x in absent_lrus(ctx, 10):
         node = guarded(ctx, "C02.absent_lookup", trie.lru_node, x)[1]
         ctx.check("C02.absent_lookup", node is None, lambda: "absent LRU %s is located" % short(x))
